@@ -558,6 +558,52 @@ def r10(ctx, facts):
         raise AnchorLost("no ordered UDT type_check in the family")
 
 
+def r11(ctx, facts):
+    r = ctx.rule("R11", "by-name type_check refuses a type that lists one of the struct's names twice (deserialize asserts it cannot happen)", floor=8)
+    from ..util import dj_of, decided_edges
+    n = 0
+    for name, (kind, flavor, fields, der) in sorted(FAMILY.items()):
+        if flavor != "name" or "d" not in der:
+            continue
+        tr = "scylla_cql_core::deserialize::row::DeserializeRow" if kind == "row" else "scylla_cql_core::deserialize::value::DeserializeValue"
+        b = find_body(facts, r"^<derive_family::%s as %s<'lifetime, 'lifetime_>>::type_check$" % (name, re.escape(tr)))
+        dj = dj_of(b, facts)
+        df = df_of(b, facts)
+        lits = eq_literals(b)
+        loops = [c for bb, c in b.calls() if bb in b.live_blocks and (c.decl or "").endswith("Iterator::next") and any(c.bb in b.reachable_from(x) for x in b.succ[c.bb])]
+        if not loops:
+            raise AnchorLost("%s::type_check: no loop over the listed fields" % name)
+        heads = [c.bb for c in loops]
+        for f, cql, ty in fields:
+            if cql is None:
+                continue
+            arm_bbs = [bb for bb, L in lits.items() if L == cql]
+            if not arm_bbs:
+                continue
+            n += 1
+            # first-occurrence path: the blocks that record "seen" for this name (a constant stored into a bool / Option slot while L is in force)
+            marks = []
+            for bb in sorted(b.live_blocks):
+                for st in b.stmts(bb):
+                    if st[0] == "A" and not st[1][1] and st[2][0] == "use" and st[2][1][0] == "k" and b.local_ty(st[1][0]) == "bool" and str(st[2][1][3]) in ("1", "true"):
+                        if literal_in_force(df, lits, df.state_in.get(bb)) == cql:
+                            marks.append(bb)
+            if not marks:
+                r.fail("duplicate-refused:%s:%s" % (name, cql), "no `seen` flag is recorded in the arm of name %r" % cql, b.span)
+                continue
+            again = False
+            for ab in arm_bbs:
+                for (u, v) in decided_edges(b, dj, ("call", ab), 1):
+                    reach = dj.feasible_reach_edge(u, v, removed_nodes=marks)
+                    if any(h in reach for h in heads):
+                        again = True
+            r.instance("duplicate-refused:%s:%s" % (name, cql), not again,
+                       "when the database type lists the name %r a second time, type_check goes on to the next listed field instead of answering DuplicatedField: it accepts the type, and "
+                       "deserialize then panics on its `duplicated field ... type check should have prevented this` assertion" % cql, b.span)
+    if n == 0:
+        raise AnchorLost("no by-name type_check arms found")
+
+
 def switch_edges_(b, sw):
     t = b.term(sw)
     return {int(v): tg for v, tg in t[2]}, t[3]
@@ -570,7 +616,7 @@ def check(ctx):
         sers = r1(ctx, facts)
     except AnchorLost as ex:
         ctx.rule("R1x", "anchors").fail("anchor-lost", str(ex))
-    for fn in ((lambda c, f: r2(c, f, sers)), r3, r4, r5, r6, r7, r8, r9, r10):
+    for fn in ((lambda c, f: r2(c, f, sers)), r3, r4, r5, r6, r7, r8, r9, r10, r11):
         try:
             fn(ctx, facts)
         except AnchorLost as ex:
